@@ -35,6 +35,15 @@ import (
 // RunUDPAssociateLoop exchanges socks5 UDP packets between a socks5 proxy client and a mieru proxy server,
 // the proxy server is connected via the PacketOverStreamTunnel.
 func RunUDPAssociateLoop(udpConn *net.UDPConn, conn *apicommon.PacketOverStreamTunnel, resolver apicommon.DNSResolver) error {
+	return runUDPAssociateLoop(udpConn, conn, resolver, nil)
+}
+
+// udpDestinationFilter decides whether a datagram of a UDP association may be
+// relayed to the destination named in its header. A nil filter allows every
+// destination.
+type udpDestinationFilter func(dst *net.UDPAddr) bool
+
+func runUDPAssociateLoop(udpConn *net.UDPConn, conn *apicommon.PacketOverStreamTunnel, resolver apicommon.DNSResolver, allow udpDestinationFilter) error {
 	var udpErr atomic.Value
 
 	// addrMap maps the UDPAddr in string to the bytes in UDP associate header.
@@ -67,6 +76,11 @@ func RunUDPAssociateLoop(udpConn *net.UDPConn, conn *apicommon.PacketOverStreamT
 			if err != nil {
 				log.Debugf("UDP associate %v ResolveUDPAddr() failed: %v", udpConn.LocalAddr(), err)
 				UDPAssociateErrors.Add(1)
+				continue
+			}
+			if allow != nil && !allow(dstAddr) {
+				log.Debugf("UDP associate %v dropped packet to %v: not allowed by ruleset", udpConn.LocalAddr(), dstAddr)
+				RejectByRules.Add(1)
 				continue
 			}
 			addrMap.Store(dstAddr.String(), datagram.Header)
@@ -211,7 +225,7 @@ func RunUDPForwardingLoop(udpConn *net.UDPConn, conn *apicommon.PacketOverStream
 // runUDPAssociateDatagramLoop exchanges RFC 1928 SOCKS5 UDP datagrams between
 // a SOCKS5 proxy client and UDP destinations until the TCP control connection
 // is closed.
-func runUDPAssociateDatagramLoop(udpConn *net.UDPConn, ctrlConn net.Conn, resolver apicommon.DNSResolver) error {
+func runUDPAssociateDatagramLoop(udpConn *net.UDPConn, ctrlConn net.Conn, resolver apicommon.DNSResolver, allow udpDestinationFilter) error {
 	if resolver == nil {
 		resolver = &net.Resolver{}
 	}
@@ -254,6 +268,11 @@ func runUDPAssociateDatagramLoop(udpConn *net.UDPConn, ctrlConn net.Conn, resolv
 					Port: addr.Port,
 					Zone: addr.Zone,
 				}
+			}
+			if allow != nil && !allow(dstAddr) {
+				log.Debugf("UDP datagram relay %v dropped packet to %v: not allowed by ruleset", udpConn.LocalAddr(), dstAddr)
+				RejectByRules.Add(1)
+				continue
 			}
 
 			ws, err := udpConn.WriteToUDP(payload, dstAddr)
